@@ -192,7 +192,29 @@ def twin_resume(task: dict) -> str:
     return json.dumps(x) + "\n##SINGLES##\n" + json.dumps(b)
 
 
-KINDS = {"same": twin_same, "transp": twin_transp, "sigma": twin_sigma, "below": twin_below, "resume": twin_resume}
+FORCE_FALLBACK = {"maxm": 100000, "candlim": 1, "rsthr": 1, "simbudget": 1000, "nfvsthr": 2000}
+
+
+def twin_fallback(task: dict) -> str:
+    """C12: the same history with the default attractor method and with the symbolic fallback (forced by a candidate limit of 1)"""
+    import rec
+    devnull = os.open(os.devnull, os.O_WRONLY)
+    os.dup2(devnull, 2)
+    tt, pre, order = task["tt"], task["pre"], task["order"]
+    ops_a = pre + [{"op": "seeds", "n": k, "fallback": False} for k in order] + [{"op": "allsets"}]
+    ops_b = (pre + [{"op": "setcfg", "newcfg": FORCE_FALLBACK}] + [{"op": "seeds", "n": k, "fallback": True} for k in order]
+             + [{"op": "setcfg", "newcfg": rec.default_cfg()}, {"op": "allsets"}])
+    a = rec.record_trace(task["tid"] + "_d", tt, ops_a)
+    b = rec.record_trace(task["tid"], tt, ops_b)
+    if any(e["raised"] for e in a["events"]) or any(e["exc"] == "Hang" for e in b["events"]):
+        return ""
+    x = {"tid": task["tid"], "rel": "fallback", "perm": [], "neg": [], "val": [], "a": slim(a)[-1:], "b": slim(b)[-1:], "map": [1],
+         "net": a["net"], "calls": [e["op"] for e in b["events"]], "canonical": False,
+         "fallback_runs": sum(1 for e in b["events"] if e["op"] == "seeds" and e["fallback"] and not e["raised"])}
+    return json.dumps(x) + "\n##SINGLES##\n" + json.dumps(b)
+
+
+KINDS = {"fallback": twin_fallback, "same": twin_same, "transp": twin_transp, "sigma": twin_sigma, "below": twin_below, "resume": twin_resume}
 
 
 def _work(task):
